@@ -113,6 +113,9 @@ def systematic_cb_cases(consts):
         for n, _ in table:
             for v in (n, n.lower(), n.capitalize(), "LOG_" + n, "log_" + n.lower(), "Log_" + n.capitalize()):
                 out.append("\t".join(["cb", hexs(b"snoopy"), hexs(opt.encode()), hexs(v.encode("latin1"))]))
+    # booleans are read by their first byte: every possible first byte (a fold like `c | 0x20` also maps 0x11 / 0x10 to '1' / '0')
+    for b in range(1, 256):
+        out.append("\t".join(["cb", hexs(b"snoopy"), hexs(b"error_logging"), hexs(bytes([b]) + b"es")]))
     for opt in ("datasource_message_max_length", "log_message_max_length"):
         for num in (0, 1, 254, 255, 256, 1023, 1024, 1025, 1048575, 1048576, 2 ** 31 - 1, 2 ** 31, 2 ** 32 + 1, 10 ** 15, 10 ** 19, 10 ** 30):
             for suf in ("", "k", "K", "m", "M"):
